@@ -148,7 +148,10 @@ class Gen:
             ss, rs = r.randrange(1, 40), r.randrange(1, 40)
         self.clock = 0
         self.always = r.random() < self.w.get('_always', 0.0)
-        self.emit('new %s %d %d %d%s' % (pk, enf, ss, rs, ' A' if self.always else ''), kind='new')
+        # X: segment with the extended operations (application retransmissions alone and at the tail of a batch, failing socket writes);
+        # like A it is outside the Lean model and judged by the property oracle only
+        self.ext = (not self.always) and r.random() < self.w.get('_ext', 0.0)
+        self.emit('new %s %d %d %d%s' % (pk, enf, ss, rs, ' A' if self.always else ' X' if self.ext else ''), kind='new')
         self.ns = (ss or 1) + 1
         self.nr = rs or 1
         self.sent = set()
@@ -172,6 +175,8 @@ class Gen:
         ops = [(k_, v_) for k_, v_ in self.w.items() if not k_.startswith('_')]
         if self.always:
             ops = [(k_, v_) for k_, v_ in ops if k_ in ('app', 'batch', 'adm', 'in_seq', 'heartbeat', 'test_request')] + [('fwd', 30)]
+        if self.ext:
+            ops = [(k_, v_) for k_, v_ in ops if k_ in ('app', 'batch', 'adm', 'in_seq', 'heartbeat', 'test_request', 'restart')] + [('fwd_dup', 10), ('dbatch', 25), ('wfail', 20)]
         names = [k for k, _ in ops]
         weights = [v for _, v in ops]
         for _ in range(nops):
@@ -397,6 +402,42 @@ class Gen:
         self.ns += n
         self.gets(self.ns - n - 1, self.ns)
 
+    def op_fwd_dup(self):
+        """outside _always_seqnum_assign a message that already carries a MsgSeqNum is a retransmission: no new number, nothing stored"""
+        self.emit('fwd %d %d' % (self.npid(), self.r.choice((1, 2, max(1, self.ns - 1)))), kind='fwd-dup')
+        self.gets(self.ns - 1, self.ns)
+
+    def op_dbatch(self):
+        """send_batch mixing new orders and retransmissions; half of them end with a retransmission"""
+        n = self.r.randrange(1, 5)
+        els, new = [], 0
+        for i in range(n):
+            if self.r.random() < 0.25 and self.ns > 2:
+                els.append('%d@%d' % (self.npid(), self.r.randrange(1, self.ns)))
+            else:
+                els.append(str(self.npid()))
+                new += 1
+        if self.r.random() < 0.5 and self.ns > 1:
+            els.append('%d@%d' % (self.npid(), self.r.randrange(1, self.ns)))
+        self.emit('dbatch ' + ' '.join(els), kind='dbatch')
+        for i in range(new):
+            self.sent.add(self.ns + i)
+        self.ns += new
+        self.gets(self.ns - new - 1, self.ns)
+        if self.r.random() < 0.4 and self.pk != 'none':
+            self.op_restart()        # the control record is what the next incarnation starts from
+
+    def op_wfail(self):
+        """an application send whose socket write fails, then (usually) a further send that takes the same number"""
+        self.emit('wfail %d' % self.npid(), kind='wfail')
+        self.gets(self.ns - 1, self.ns)
+        x = self.r.random()
+        if x < 0.3 and self.pk != 'none':
+            self.op_restart()
+        if x < 0.8:
+            self.op_app()
+            self.gets(self.ns - 2, self.ns)
+
     def op_fwd(self):
         """a forwarded message: its header already carries a MsgSeqNum (only used with _always_seqnum_assign)"""
         self.emit('fwd %d %d' % (self.npid(), self.r.choice((3, 77, self.ns))), kind='fwd')
@@ -527,7 +568,7 @@ def decide(res, *, pid, theorems, lines, oracle, what='', stream='sess'):
 
     def nontrivial(l):
         cnt[0] += 1
-        return (cnt[0], l[:40]) if l.startswith(('in ', 'app', 'adm', 'batch', 'bbatch', 'fwd', 'restart', 'new', 'get')) else None
+        return (cnt[0], l[:40]) if l.startswith(('in ', 'app', 'adm', 'batch', 'bbatch', 'dbatch', 'wfail', 'fwd', 'restart', 'new', 'get')) else None
 
     vlib.run_harness, vlib.run_driver = run_harness, run_driver
     try:
